@@ -72,6 +72,7 @@ type SliceV struct {
 	Len  *Term // BV64
 	Cap  *Term // BV64
 	Elem types.Type
+	Snap *Term // contract evaluation only: content captured by old(...) (overrides the backing store)
 }
 
 type StructV struct {
